@@ -936,6 +936,41 @@ func c08BacktrackingMemoised(r *an.Run) {
 			// the recursive call receives the memo (or a fresh one), never nil
 			last := c.Common().Args[len(c.Common().Args)-1]
 			r.Check(!an.IsNilConst(last), key+"|memo-passed", c.Pos(), "the recursive call is given a memo")
+			// the memo is given up (a fresh one handed down) only on the say of a helper that looks at the
+			// sub-problems that REMAIN — the very list the recursive call is given — not at the one just solved:
+			// otherwise every section that binds anything resets it and the search is exponential again
+			if phi, isPhi := last.(*ssa.Phi); isPhi {
+				for _, hc := range an.Calls(f) {
+					hcall, ok := hc.(*ssa.Call)
+					h := an.StaticCallee(hc)
+					if !ok || h == nil || h == f || !an.InModule(h) || len(an.BranchesOn(f, hcall)) == 0 {
+						continue
+					}
+					// does this call decide which memo is handed down?
+					decides := false
+					for i := range phi.Edges {
+						pred := phi.Block().Preds[i]
+						if unreachableWithout(pred, edgesWhen(an.BranchesOn(f, hcall), true)) || pred == hcall.Block() {
+							decides = true
+						}
+					}
+					if !decides {
+						continue
+					}
+					// the list-typed arguments it shares with the recursive call must be the same expressions
+					for _, ha := range hcall.Call.Args {
+						if _, isSlice := ha.Type().Underlying().(*types.Slice); !isSlice {
+							continue
+						}
+						for _, ra := range c.Common().Args {
+							if !types.Identical(ha.Type(), ra.Type()) || an.Root(ha) != an.Root(ra) {
+								continue
+							}
+							r.Check(sameSliceExpr(ha, ra), key+"|memo-reset-looks-at-the-rest|"+an.Path(an.Root(ha)), hcall.Pos(), "%s, which decides whether the memo of failed sub-problems is kept, is given the same part of %s as the recursive call (the sub-problems that remain)", short(h), an.Path(an.Root(ha)))
+						}
+					}
+				}
+			}
 		}
 	}
 	r.Count("recursive searches", n)
@@ -1092,4 +1127,29 @@ func isEdgeIn(edges []an.CtrlEdge, from, to *ssa.BasicBlock) bool {
 		}
 	}
 	return false
+}
+
+// sameSliceExpr: a and b denote the same part of the same list: the same value,
+// or slices of the same operand with equal constant bounds.
+func sameSliceExpr(a, b ssa.Value) bool {
+	if a == b {
+		return true
+	}
+	sa, ok1 := a.(*ssa.Slice)
+	sb, ok2 := b.(*ssa.Slice)
+	if !ok1 || !ok2 || sa.X != sb.X {
+		return false
+	}
+	eq := func(x, y ssa.Value) bool {
+		if x == nil || y == nil {
+			return x == nil && y == nil
+		}
+		if x == y {
+			return true
+		}
+		kx, okx := an.ConstInt(x)
+		ky, oky := an.ConstInt(y)
+		return okx && oky && kx == ky
+	}
+	return eq(sa.Low, sb.Low) && eq(sa.High, sb.High) && eq(sa.Max, sb.Max)
 }
